@@ -25,7 +25,10 @@ SelectOp(ns, name) ==
 VarsOk(ns, op, given) ==
   \A i \in 1..Len(ns[op].vdefs) :
      LET vd == ns[op].vdefs[i] IN
-     IsNN(vd.type) => (vd.name \in DOMAIN given /\ ~IsNull(given[vd.name])) \/ vd.hasDefault
+     /\ IsNN(vd.type) => (vd.name \in DOMAIN given /\ ~IsNull(given[vd.name])) \/ vd.hasDefault
+     \* an enum-typed variable carries the name of one of the enum's values
+     /\ (vd.name \in DOMAIN given /\ ~IsNull(given[vd.name]) /\ Len(vd.type) = 1 /\ KindOf(vd.type[1]) = "ENUM")
+           => (given[vd.name].t = "S" /\ given[vd.name].v \in SeqToSet(Types[vd.type[1]].values))
 CoercedGiven(ns, op, given) ==
   LET names == {ns[op].vdefs[i].name : i \in 1..Len(ns[op].vdefs)}
       def(x) == CHOOSE i \in 1..Len(ns[op].vdefs) : ns[op].vdefs[i].name = x
